@@ -25,16 +25,17 @@ def cleanAfter (k : EnvId) (keep : Bool) (v : View) : Bool :=
     hooks of the environment sit at one weight at most. -/
 def singleWeight (hs : List HookRef) : Bool := decide ((weightsOf hs).length ≤ 1)
 
-/-- Well-formedness of the bookkeeping around environment `k` with task references `tasks`
-    (it holds of every listed, not torn environment in every reachable state: `C06_wellformed`):
+/-- Well-formedness of the bookkeeping around environment `k` with task references `tasks`:
     a roster task whose parent is `k` is one of `tasks`; the roster entries of `tasks` carry `k`
-    as parent and complete ids; every task launched for `k` is one of `tasks` and has a roster
-    entry; roster ids are unique; of the calls started for `k` every one is either pending or
-    was cancelled, and no deleted environment carried the id before. -/
+    as parent (their ids need not be complete: a lost executor or agent blanks them); every task
+    launched for `k` is one of `tasks` and has ended or has a roster entry; roster ids are unique;
+    of the calls started for `k` every one is either pending or was cancelled, and no deleted
+    environment carried the id before. -/
 def envWf (s : State) (k : EnvId) (tasks : List TaskId) : Bool :=
   s.roster.all (fun t => decide (t.parent ≠ some k) || decide (t.id ∈ tasks))
-  && s.roster.all (fun t => decide (t.id ∉ tasks) || (decide (t.parent = some k) && t.idsOk))
-  && s.master.all (fun m => decide (m.label ≠ k) || (decide (m.id ∈ tasks) && s.roster.any (fun t => decide (t.id = m.id))))
+  && s.roster.all (fun t => decide (t.id ∉ tasks) || decide (t.parent = some k))
+  && s.master.all (fun m => decide (m.label ≠ k) || (decide (m.id ∈ tasks) &&
+        (decide (m.mesos = .terminal) || s.roster.any (fun t => decide (t.id = m.id)))))
   && decide (s.roster.map (·.id)).Nodup
   && s.envs.all (fun X => decide (X.id ≠ k) || decide (X.started = X.cancelled + X.pending))
   && s.dead.all (fun d => decide (d.1 ≠ k))
@@ -46,6 +47,13 @@ def envWf (s : State) (k : EnvId) (tasks : List TaskId) : Bool :=
 def statusFaithful (s : State) (tasks : List TaskId) : Bool :=
   s.roster.all (fun t => decide (t.id ∉ tasks) || t.active
     || s.master.all (fun m => decide (m.id ≠ t.id) || decide (m.mesos = .terminal)))
+
+/-- The roster entry of a task of the environment and the master's row for it name the same
+    host (both are written from the same offer; neither ever changes). Needed to follow a lost
+    executor / agent from the master's table to the roster. -/
+def hostsAgree (s : State) (tasks : List TaskId) : Bool :=
+  s.roster.all (fun t => decide (t.id ∉ tasks) ||
+    s.master.all (fun m => decide (m.id ≠ t.id) || decide (m.host = t.host)))
 
 /-- Hypothesis excluded by finding destroy_hooks_unreleased: the DESTROY / after_DESTROY hook
     tasks sit at one weight at most and their roles are ACTIVE. -/
